@@ -139,7 +139,22 @@ func VH_C06_Confine() {
 	if e.RegisterString("main", "[{% include 'inner' sandboxed %}]") != nil {
 		return
 	}
-	if err := e.RegisterString("inner", vhC06Inner[k]); err != nil {
+	if symParam("FOREIGN", 0) == 1 {
+		// the included template object was built by another engine (one without a policy) and handed
+		// to this one: the policy of the engine that renders still confines it
+		symTag("foreign-template")
+		lib := vhC06Engine(nil, func(n string) {
+			symAssert(pol.IsFilterAllowed(n), "forbidden-filter-invoked")
+		}, func(n string) {
+			symAssert(pol.IsFunctionAllowed(n), "forbidden-function-invoked")
+		})
+		tp, err := lib.ParseTemplate(vhC06Inner[k])
+		if err != nil {
+			symAssert(false, "inner-template-parses")
+			return
+		}
+		e.RegisterTemplate("inner", tp)
+	} else if err := e.RegisterString("inner", vhC06Inner[k]); err != nil {
 		symAssert(false, "inner-template-parses")
 		return
 	}
